@@ -23,8 +23,9 @@ use xml_dom::{Document, DocumentMut, Element, Node, NodeList, NodeMut};
 
 pub const BASE_DOC: &str = "<!DOCTYPE r><!--k--><r x='v'><a><b/>t</a><c/></r>";
 /// D document, T doctype, K prolog comment, R root, A, B (in A), X text (in A), C, Y attribute x of R, V its text,
-/// N created element, S created text, W created comment, F created (empty) fragment, Z element of ANOTHER document
-pub const POOL: [&str; 15] = ["D", "T", "K", "R", "A", "B", "X", "C", "Y", "V", "N", "S", "W", "F", "Z"];
+/// N created element, S created text, W created comment, F created (empty) fragment, Z element of ANOTHER document,
+/// L an element created by a LOOK-ALIKE document (a second parse of the same text: equal content, equal ids)
+pub const POOL: [&str; 16] = ["D", "T", "K", "R", "A", "B", "X", "C", "Y", "V", "N", "S", "W", "F", "Z", "L"];
 pub const PARENTS: [&str; 8] = ["D", "R", "A", "C", "N", "Y", "X", "K"];
 pub const REFS: [&str; 9] = ["T", "K", "R", "A", "B", "X", "C", "N", "V"];
 
@@ -111,7 +112,7 @@ impl Model {
         let mut errs = vec![];
         // "created from a different document than the one that created this node": a foreign node -- and the Document node
         // itself, which no document created (its ownerDocument is null): WRONG_DOCUMENT_ERR applies next to the hierarchy error
-        if new == "Z" || new == "D" {
+        if new == "Z" || new == "D" || new == "L" {
             errs.push("WrongDocumentErr");
         }
         let pk = kind(p);
@@ -176,7 +177,7 @@ impl Model {
                     if !matches!(kind(p), Kind::Doc | Kind::Element | Kind::Attr) {
                         e.push("HierarchyRequestErr");
                     }
-                    if *old == "Z" || *old == "D" {
+                    if *old == "Z" || *old == "D" || *old == "L" {
                         e.push("WrongDocumentErr");
                     }
                     return vec![Err(e)];
@@ -229,6 +230,7 @@ impl Model {
 struct Real {
     doc: xml_dom::XmlDocument,
     _other: xml_dom::XmlDocument,
+    _alike: xml_dom::XmlDocument,
     nodes: BTreeMap<&'static str, xml_dom::XmlNode>,
 }
 
@@ -256,14 +258,17 @@ impl Real {
         nodes.insert("W", xml_dom::AsNode::as_node(&doc.create_comment("w")));
         nodes.insert("F", xml_dom::AsNode::as_node(&doc.create_document_fragment()));
         nodes.insert("Z", other.document_element().unwrap().child_nodes().item(60).unwrap());
-        Real { doc, _other: other, nodes }
+        let (_, alike) = xml_dom::XmlDocument::from_raw(BASE_DOC).unwrap();
+        nodes.insert("L", xml_dom::AsNode::as_node(&alike.create_element("n").unwrap()));
+        Real { doc, _other: other, _alike: alike, nodes }
     }
 
     /// ids are unique per document only: the foreign document is padded so that the id of Z exceeds every id of the main one
     fn pool_name(&self, n: &xml_dom::XmlNode) -> &'static str {
         for (k, v) in &self.nodes {
             // (a fragment wraps a document of its own and answers that document's id, 1, like the main document: tell by kind)
-            if v.id() == n.id() && std::mem::discriminant(v) == std::mem::discriminant(n) {
+            // (and the look-alike document hands out the same ids as the main one: tell by the owner document)
+            if v.id() == n.id() && std::mem::discriminant(v) == std::mem::discriminant(n) && (v.owner_document() == n.owner_document() || matches!(n, xml_dom::XmlNode::Document(_))) {
                 return k;
             }
         }
@@ -442,10 +447,10 @@ pub fn dom_seq(ops: &str, what: &str) -> Outcome {
     let observed = match catch_unwind(AssertUnwindSafe(|| {
         let real = Real::base();
         let mut model = Model::base();
-        let mut ids: Vec<(usize, bool)> = real.nodes.values().map(|n| (n.id(), matches!(n, xml_dom::XmlNode::DocumentFragment(_)))).collect();
+        let mut ids: Vec<(usize, bool)> = real.nodes.iter().filter(|(k, _)| **k != "L").map(|(_, n)| (n.id(), matches!(n, xml_dom::XmlNode::DocumentFragment(_)))).collect();
         ids.sort();
         ids.dedup();
-        if ids.len() != POOL.len() {
+        if ids.len() != POOL.len() - 1 {
             return (format!("the ids of the pool nodes collide: {:?}", real.nodes.iter().map(|(k, n)| format!("{}={}", k, n.id())).collect::<Vec<_>>()), "distinct ids".to_string());
         }
         if real.show() != model.show() {
@@ -609,11 +614,12 @@ pub fn state_changers() -> Vec<String> {
 //   X:<el>:<attr>  remove_attribute_node     V:<el>:<name>  remove_attribute     N:<el>:<name>  attributes().remove_named_item
 //   T:<el>:<name>  set_attribute(name, "9")
 // elements: E G (two look-alike siblings <e a='1'>t</e>), H (<f b='2' a='3'/>), M (created <e/>)
-// attribute nodes: a (a of E), c (a of G), b (b of H), d (a of H), u (created "a"), w (created "b"), z (created "a" by ANOTHER document)
+// attribute nodes: a (a of E), c (a of G), b (b of H), d (a of H), u (created "a"), w (created "b"), z (created "a" by ANOTHER document),
+// y (created "a" by a LOOK-ALIKE document: a second parse of the same text)
 
 pub const ATTR_DOC: &str = "<r><e a='1'>t</e><e a='1'>t</e><f b='2' a='3'/></r>";
 pub const ATTR_ELS: [&str; 4] = ["E", "G", "H", "M"];
-pub const ATTR_NODES: [&str; 7] = ["a", "c", "b", "d", "u", "w", "z"];
+pub const ATTR_NODES: [&str; 8] = ["a", "c", "b", "d", "u", "w", "z", "y"];
 pub const ATTR_NAMES: [&str; 3] = ["a", "b", "q"];
 
 #[derive(Clone, PartialEq)]
@@ -624,7 +630,7 @@ struct AttrModel {
 
 fn attr_name_of(n: &str) -> &'static str {
     match n {
-        "a" | "c" | "d" | "u" | "z" => "a",
+        "a" | "c" | "d" | "u" | "z" | "y" => "a",
         _ => "b",
     }
 }
@@ -678,7 +684,7 @@ impl AttrModel {
             "S" | "M" => {
                 let at = op[2];
                 let mut errs = vec![];
-                if at == "z" {
+                if at == "z" || at == "y" {
                     errs.push("WrongDocumentErr");
                 }
                 match self.owner(at) {
@@ -698,7 +704,7 @@ impl AttrModel {
                 let at = op[2];
                 if self.owner(at) != Some(el) {
                     let mut e = vec!["NotFoundErr"];
-                    if at == "z" {
+                    if at == "z" || at == "y" {
                         e.push("WrongDocumentErr");
                     }
                     return vec![Err(e)];
@@ -742,7 +748,7 @@ fn name_el(s: &str) -> &'static str {
 struct AttrReal {
     els: BTreeMap<&'static str, xml_dom::XmlElement>,
     attrs: BTreeMap<&'static str, xml_dom::XmlAttr>,
-    _docs: (xml_dom::XmlDocument, xml_dom::XmlDocument),
+    _docs: (xml_dom::XmlDocument, xml_dom::XmlDocument, xml_dom::XmlDocument),
 }
 
 impl AttrReal {
@@ -764,14 +770,17 @@ impl AttrReal {
         attrs.insert("u", doc.create_attribute("a").unwrap());
         attrs.insert("w", doc.create_attribute("b").unwrap());
         attrs.insert("z", other.create_attribute("a").unwrap());
+        // y: created by a look-alike document (a second parse of the same text)
+        let (_, alike) = xml_dom::XmlDocument::from_raw(ATTR_DOC).unwrap();
+        attrs.insert("y", alike.create_attribute("a").unwrap());
         let _ = r.as_node();
-        AttrReal { els, attrs, _docs: (doc, other) }
+        AttrReal { els, attrs, _docs: (doc, other, alike) }
     }
 
     fn attr_name(&self, at: &xml_dom::XmlAttr) -> &'static str {
         use xml_dom::AsNode;
         for (k, v) in &self.attrs {
-            if v.as_node().id() == at.as_node().id() && (*k == "z") == (at.as_node().id() > 60) {
+            if v.as_node().id() == at.as_node().id() && xml_dom::Node::owner_document(v) == xml_dom::Node::owner_document(at) {
                 return k;
             }
         }
